@@ -63,6 +63,7 @@ type Contract struct {
 	Callsites []*CallsiteReq
 	Implicit  bool
 	CallsitesOnly bool
+	TrustedEnsures []Clause // postconditions assumed at call sites but not proved on the body (listed as assumptions)
 	Callbacks []string // extern higher-order function: parameters it invokes (zero or more times, with arbitrary arguments)
 	Construction bool // called only before the receiver is shared: guarded-field accesses are exempt
 }
@@ -220,7 +221,7 @@ func (ss *SpecSet) LoadContractFile(path string, pkgPath string) error {
 				return fmt.Errorf("%s: duplicate contract for %s", src, k)
 			}
 			ss.Contracts[k] = cur
-		case "requires", "ensures":
+		case "requires", "ensures", "trusted-ensures":
 			if cur == nil {
 				return fmt.Errorf("%s: clause outside function contract", src)
 			}
@@ -230,6 +231,10 @@ func (ss *SpecSet) LoadContractFile(path string, pkgPath string) error {
 			}
 			if word == "requires" {
 				cur.Requires = append(cur.Requires, c)
+			} else if word == "trusted-ensures" {
+				// a frame fact about a function whose body (verified for other clauses) is too wide to prove it on:
+				// assumed where the function is called, never proved, and reported with the assumptions
+				cur.TrustedEnsures = append(cur.TrustedEnsures, c)
 			} else {
 				cur.Ensures = append(cur.Ensures, c)
 			}
